@@ -153,6 +153,14 @@ func HasData(dir string) (bool, error) {
 // of the Hashicorp Raft library, but has been customized for rqlite use.
 func RecoverNode(dataDir string, extensions []string, logger *log.Logger, logs raft.LogStore,
 	stable *rlog.Log, snaps raft.SnapshotStore, tn raft.Transport, conf raft.Configuration) error {
+	return recoverNode(dataDir, extensions, false, logger, logs, stable, snaps, tn, conf)
+}
+
+// recoverNode is RecoverNode with control over whether the database used to replay the
+// log enforces foreign key constraints. It must match the setting the entries were
+// originally applied with, or the replay can produce a different database.
+func recoverNode(dataDir string, extensions []string, fkEnabled bool, logger *log.Logger, logs raft.LogStore,
+	stable *rlog.Log, snaps raft.SnapshotStore, tn raft.Transport, conf raft.Configuration) error {
 	logPrefix := logger.Prefix()
 	logger.SetPrefix(fmt.Sprintf("%s[recovery] ", logPrefix))
 	defer logger.SetPrefix(logPrefix)
@@ -203,7 +211,7 @@ func RecoverNode(dataDir string, extensions []string, logger *log.Logger, logs r
 		drv = sql.NewDriver(random.StringPattern("rqlite-extended-recover-xxxx-xxxx-xxxx"),
 			extensions, sql.CnkOnCloseModeDisabled)
 	}
-	db, err := sql.OpenSwappable(tmpDBPath, drv, false, true, 0)
+	db, err := sql.OpenSwappable(tmpDBPath, drv, fkEnabled, true, 0)
 	if err != nil {
 		return fmt.Errorf("failed to open temporary database: %s", err)
 	}
